@@ -229,10 +229,10 @@ static json_object *ser_tree(int nrand)
 }
 static const int fl[] = {0, JSON_C_TO_STRING_SPACED, JSON_C_TO_STRING_PRETTY, JSON_C_TO_STRING_NOZERO, JSON_C_TO_STRING_PRETTY | JSON_C_TO_STRING_NOZERO};
 /* serialization variants: 0..4 flag sets with the default format, 5..7 with a configured global double format */
-#define NSER 8
+#define NSER 12
 static const char *ser_variant(json_object *tree, int f)
 {
-	static const char *gf[] = {"%.3f", "%.17g", "%e"};
+	static const char *gf[] = {"%.3f", "%.17g", "%e", "%.124f", "%.130f", "%125.3f", "%.60f"};  /* incl. outputs around the 128-byte scratch buffer */
 	if (f >= 5)
 		json_c_set_serialization_double_format(gf[f - 5], JSON_C_OPTION_GLOBAL);
 	const char *t = json_object_to_json_string_ext(tree, f < 5 ? fl[f] : 0);
